@@ -4,7 +4,7 @@
    [concat r] is the byte stream.  MaxSizeN = 65520, payload limit 65516. *)
 From Coq Require Import List NArith ZArith Bool.
 From GoGit Require Import Base.Out Gen.C34 Model.PktLine Model.Sideband
-  Proofs.C34Stream Proofs.C34Hex Proofs.C34Pkt Proofs.C34Sideband.
+  Proofs.C34Stream Proofs.C34Hex Proofs.C34Pkt Proofs.C34Peek Proofs.C34Sideband.
 Import ListNotations.
 
 (* Chunking independence: however the byte stream is split into Read results,
@@ -46,6 +46,14 @@ Proof.
   - rewrite forallb_forall in Hne. auto.
 Qed.
 Print Assumptions C34_roundtrip_scanner.
+
+(* PeekLine on a bufio.Reader whose buffer can hold the packet returns what
+   ReadLine would read, for any chunking (and consumes nothing: it only returns a value) *)
+Theorem C34_peek : forall bufsize r p e rest,
+  enc_pkt p = Some e -> concat r = e ++ rest -> (List.length e <= bufsize)%nat ->
+  peek_line bufsize r = rd_of_pkt MaxSizeN p.
+Proof. exact peek_line_enc. Qed.
+Print Assumptions C34_peek.
 
 (* Error packets: WriteError(text) is read back as the payload plus an
    *ErrorLine whose text is the original one when it has no outer white space *)
